@@ -156,6 +156,11 @@ def run(tier):
         lines.append("GEN %d %d %d %d %s %d %d %d %d" % (rng.choice([10, 12, 17, 20]), rng.choice([3, 4, 5, 6, 7]), rng.choice([0, 1]), rng.choice([0, 1, 2]),
                      rng.choice(["text", "mix", "records", "blockdup", "straddle", "edge", "longmatch", "period", "rle", "zero"]), rng.choice([0, 1, 100, 5000, 131072, 131073, 300000]),
                      rng.randint(1, 99999), rng.choice([1, 3, 7]), rng.choice([1, 3, 5, 9, 13, 16])))
+    # ---- formatted dictionary (entropy tables) + multi-block parses whose later blocks need offset codes the dictionary's table lacks
+    for i in range(24 if tier == "quick" else 400):
+        dcs = rng.choice([4096, 8192, 8192, 20000, 65536])
+        lines.append("DSEQ %d %d %d %d %d %d %d %d %d" % (rng.choice([1, 1, 2, 3, 3, 4, 5, 7]), rng.choice([0, 1]), rng.choice([0, 1]), dcs, rng.choice([300000, 400000, 530000]),
+                     rng.randint(1, 99999), rng.choice([0, 1, 2]), rng.choice([0, 1]), rng.choice([0, 0, 1, 2])))
     # ---- external producer: exact sequence counts per block, failure with and without fallback
     for i in range(60 if tier == "quick" else 800):
         lines.append("PROD %d %d %s %d %d %d %d %d %d" % (rng.choice([17, 18]), rng.choice([1, 3, 5, 9]), rng.choice(["text", "mix", "records", "rle", "period", "longrep"]),
